@@ -56,15 +56,17 @@ NS = {'': TNS, 't': TNS, 'xs': XSD, 'xsi': XSI}
 BUILTIN = {'short', 'int', 'long', 'integer', 'decimal', 'string', 'date', 'boolean',
            'anyAtomicType', 'anySimpleType', 'anyType'}
 QUERY = ['short', 'int', 'long', 'integer', 'decimal', 'string', 'date', 'boolean', 'small', 'ilist',
-         'u', 'sc', 'grp', 'anyAtomicType', 'anySimpleType', 'anyType']
+         'u', 'ud', 'v', 'sc', 'grp', 'anyAtomicType', 'anySimpleType', 'anyType']
+ELEM_KINDS = ('ea', 'eb', 'em')
+TYPED_KINDS = ('ea', 'eb', 'em', 'xa', 'xc')
 
 
 def qn(t: str) -> str:
     return ('xs:' if t in BUILTIN else 't:') + t
 
 
-def kd(ty, mn=1, mx=1, nil=False, dv=False):
-    return tla.FrozenDict(ty=ty, mn=mn, mx=mx, nil=nil, dv=dv)
+def kd(ty, mn=1, mx=1, nil=False, dv=False, sg=False):
+    return tla.FrozenDict(ty=ty, mn=mn, mx=mx, nil=nil, dv=dv, sg=sg)
 
 
 def ad(nm, ty, use='opt'):
@@ -78,39 +80,50 @@ TESTS = ["node()", "*", "a", "b", "text()"]
 XKINDS = {"ea", "eb", "t", "xa", "xc"}
 
 PROCS = int(os.environ.get('C20_PROCS', '16'))
-SIMPLE9 = ['int', 'integer', 'decimal', 'string', 'date', 'boolean', 'small', 'ilist', 'u']
+SIMPLE9 = ['int', 'integer', 'decimal', 'string', 'date', 'boolean', 'small', 'ilist', 'u', 'ud']
 
 # name -> (definitions that go into the generated MC module, plain constants)
 WALK = {
     'quick': [
         ('types', dict(KidMenu={kd(t, 0, 2) for t in SIMPLE9 + ['sc', 'grp']}, AttrMenu=set()),
-         dict(MinKids=1, MaxKids=1, MaxAtts=0, LexCap=4, XsiOn=False, RetypeTo={'string', 'decimal'})),
-        ('flags', dict(KidMenu={kd(t, 1, 1, True, True) for t in ['int', 'decimal', 'date', 'small', 'ilist', 'u', 'sc']}
+         dict(MinKids=1, MaxKids=1, MaxAtts=0, LexCap=4, XsiOn=False, VOn=False, RetypeTo={'string', 'decimal'})),
+        ('flags', dict(KidMenu={kd(t, 1, 1, True, True) for t in ['int', 'decimal', 'date', 'small', 'ilist', 'u', 'ud', 'sc']}
                        | {kd('integer', 0, 1, True, False)}, AttrMenu=set()),
-         dict(MinKids=1, MaxKids=1, MaxAtts=0, LexCap=2, XsiOn=True, RetypeTo={'decimal', 'string'})),
+         dict(MinKids=1, MaxKids=1, MaxAtts=0, LexCap=2, XsiOn=True, VOn=False, RetypeTo={'decimal', 'string'})),
         ('attrs', dict(KidMenu={kd('sc', 0, 1)},
                        AttrMenu={ad('a', 'date'), ad('a', 'int', 'dflt'), ad('c', 'boolean', 'dflt'), ad('c', 'ilist', 'req')}),
-         dict(MinKids=1, MaxKids=1, MaxAtts=2, LexCap=1, XsiOn=False, RetypeTo={'string'})),
+         dict(MinKids=1, MaxKids=1, MaxAtts=2, LexCap=1, XsiOn=False, VOn=False, RetypeTo={'string'})),
         ('seq3', dict(KidMenu={kd('int', 1, 1, False, True), kd('int', 0, 1), kd('grp', 1, 1)},
                       AttrMenu=set()),
-         dict(MinKids=3, MaxKids=3, MaxAtts=0, LexCap=1, XsiOn=False, RetypeTo={'string'})),
+         dict(MinKids=3, MaxKids=3, MaxAtts=0, LexCap=1, XsiOn=False, VOn=False, RetypeTo={'string'})),
+        # substitution group: kid 1 is a ref to the global head a, <m> is its member with a derived type
+        ('sg', dict(KidMenu={kd('decimal', 1, 2, sg=True), kd('int', 0, 2, sg=True)}, AttrMenu=set()),
+         dict(MinKids=1, MaxKids=1, MaxAtts=0, LexCap=2, XsiOn=False, VOn=False, RetypeTo={'integer'})),
+        # the global type v is defined differently by S and S' (restriction of the type of kid 1); xsi:type="v"
+        ('vtype', dict(KidMenu={kd('int', 1, 2), kd('decimal', 0, 1)}, AttrMenu=set()),
+         dict(MinKids=1, MaxKids=1, MaxAtts=0, LexCap=1, XsiOn=False, VOn=True, RetypeTo={'string', 'decimal'})),
     ],
     'thorough': [
+        ('sg', dict(KidMenu={kd(t, mn, 2, sg=True) for t in ['decimal', 'integer', 'int'] for mn in (0, 1)} | {kd('string', 1, 1)},
+                    AttrMenu=set()),
+         dict(MinKids=1, MaxKids=2, MaxAtts=0, LexCap=2, XsiOn=False, VOn=False, RetypeTo={'integer', 'decimal'})),
+        ('vtype', dict(KidMenu={kd(t, 1, 2) for t in ['int', 'integer', 'decimal', 'string']} | {kd('boolean', 0, 1)}, AttrMenu=set()),
+         dict(MinKids=1, MaxKids=2, MaxAtts=0, LexCap=2, XsiOn=False, VOn=True, RetypeTo={'string', 'decimal', 'integer'})),
         ('types2', dict(KidMenu={kd(t, 1, 1) for t in SIMPLE9 + ['sc', 'grp']}, AttrMenu={ad('a', 'int')}),
-         dict(MinKids=2, MaxKids=2, MaxAtts=1, LexCap=1, XsiOn=False, RetypeTo={'string'})),
+         dict(MinKids=2, MaxKids=2, MaxAtts=1, LexCap=1, XsiOn=False, VOn=False, RetypeTo={'string'})),
         ('types', dict(KidMenu={kd(t, 0, 2) for t in SIMPLE9 + ['sc', 'grp']}, AttrMenu=set()),
-         dict(MinKids=1, MaxKids=1, MaxAtts=0, LexCap=4, XsiOn=False, RetypeTo={'string', 'decimal', 'integer', 'u', 'ilist'})),
+         dict(MinKids=1, MaxKids=1, MaxAtts=0, LexCap=4, XsiOn=False, VOn=False, RetypeTo={'string', 'decimal', 'integer', 'u', 'ilist'})),
         ('flags', dict(KidMenu={kd(t, 1, 2, True, True) for t in SIMPLE9 + ['sc']}
                        | {kd(t, 0, 1, True, False) for t in ['integer', 'decimal', 'int']}, AttrMenu=set()),
-         dict(MinKids=1, MaxKids=1, MaxAtts=0, LexCap=4, XsiOn=True, RetypeTo={'decimal', 'string', 'integer', 'u'})),
+         dict(MinKids=1, MaxKids=1, MaxAtts=0, LexCap=4, XsiOn=True, VOn=False, RetypeTo={'decimal', 'string', 'integer', 'u'})),
         ('attrs', dict(KidMenu={kd('sc', 0, 1, True)},
                        AttrMenu={ad('a', 'date'), ad('a', 'int', 'dflt'), ad('a', 'ilist'), ad('a', 'u', 'dflt'),
                                  ad('c', 'boolean', 'dflt'), ad('c', 'small', 'req'), ad('c', 'decimal', 'dflt')}),
-         dict(MinKids=1, MaxKids=1, MaxAtts=2, LexCap=1, XsiOn=False, RetypeTo={'string', 'decimal'})),
+         dict(MinKids=1, MaxKids=1, MaxAtts=2, LexCap=1, XsiOn=False, VOn=False, RetypeTo={'string', 'decimal'})),
         ('seq3', dict(KidMenu={kd('int', 1, 1, False, True), kd('int', 0, 1), kd('decimal', 1, 2, True, True),
                                kd('grp', 1, 1), kd('boolean', 1, 2)},
                       AttrMenu=set()),
-         dict(MinKids=3, MaxKids=3, MaxAtts=0, LexCap=1, XsiOn=False, RetypeTo={'string'})),
+         dict(MinKids=3, MaxKids=3, MaxAtts=0, LexCap=1, XsiOn=False, VOn=False, RetypeTo={'string'})),
     ],
 }
 
@@ -118,14 +131,14 @@ SELECT = {
     'quick': [
         ('sel', dict(KidMenu={kd('date', 0, 2), kd('sc', 0, 1), kd('grp', 1, 1), kd('string', 1, 1)},
                      AttrMenu={ad('a', 'date'), ad('c', 'boolean', 'dflt')}),
-         dict(MinKids=0, MaxKids=2, MaxAtts=2, LexCap=1, XsiOn=False, Axes=set(AXES_Q), Tests=set(TESTS), MaxSteps=2,
+         dict(MinKids=0, MaxKids=2, MaxAtts=2, LexCap=1, XsiOn=False, VOn=False, Axes=set(AXES_Q), Tests=set(TESTS), MaxSteps=2,
               Kinds=XKINDS, RootCfg='R2'),
          [2, 3, 4]),
     ],
     'thorough': [
         ('sel', dict(KidMenu={kd('date', 0, 2), kd('sc', 0, 1), kd('grp', 1, 1), kd('string', 1, 1), kd('grp', 0, 2)},
                      AttrMenu={ad('a', 'date'), ad('c', 'boolean', 'dflt'), ad('a', 'int', 'dflt')}),
-         dict(MinKids=0, MaxKids=2, MaxAtts=2, LexCap=1, XsiOn=False, Axes=set(AXES_T), Tests=set(TESTS), MaxSteps=2,
+         dict(MinKids=0, MaxKids=2, MaxAtts=2, LexCap=1, XsiOn=False, VOn=False, Axes=set(AXES_T), Tests=set(TESTS), MaxSteps=2,
               Kinds=XKINDS, RootCfg='R2'),
          [1, 2, 3, 4, 5, 6, 7, 8, 9]),
     ],
@@ -184,6 +197,7 @@ TYPE_DEFS = (
     '<xs:simpleType name="small"><xs:restriction base="xs:int"><xs:maxInclusive value="10"/></xs:restriction></xs:simpleType>'
     '<xs:simpleType name="ilist"><xs:list itemType="xs:int"/></xs:simpleType>'
     '<xs:simpleType name="u"><xs:union memberTypes="xs:int xs:string"/></xs:simpleType>'
+    '<xs:simpleType name="ud"><xs:union memberTypes="xs:decimal xs:string"/></xs:simpleType>'
     '<xs:complexType name="sc"><xs:simpleContent><xs:extension base="xs:decimal">'
     '<xs:attribute name="a" type="xs:int"/></xs:extension></xs:simpleContent></xs:complexType>'
     '<xs:complexType name="grp"><xs:sequence><xs:element name="b" type="xs:boolean" minOccurs="0"/></xs:sequence></xs:complexType>')
@@ -191,8 +205,18 @@ TYPE_DEFS = (
 
 def xsd_text(S, sdef) -> str:
     out = [f'<xs:schema xmlns:xs="{XSD}" xmlns:t="{TNS}" targetNamespace="{TNS}" elementFormDefault="qualified">',
-           TYPE_DEFS, '<xs:element name="b"><xs:complexType><xs:sequence>']
+           TYPE_DEFS,
+           # the global type whose definition depends on the schema
+           f'<xs:simpleType name="v"><xs:restriction base="{qn(sdef["vbase"])}"/></xs:simpleType>']
     for pos, d in enumerate(S['kids'], 1):
+        if d['sg']:      # the head of the substitution group and its member are global elements
+            out.append(f'<xs:element name="{KIDNAME[pos]}" type="{qn(d["ty"])}"/>'
+                       f'<xs:element name="m" type="{qn(sdef["sgm"][pos - 1])}" substitutionGroup="t:{KIDNAME[pos]}"/>')
+    out.append('<xs:element name="b"><xs:complexType><xs:sequence>')
+    for pos, d in enumerate(S['kids'], 1):
+        if d['sg']:
+            out.append(f'<xs:element ref="t:{KIDNAME[pos]}" minOccurs="{d["mn"]}" maxOccurs="{d["mx"]}"/>')
+            continue
         a = f'<xs:element name="{KIDNAME[pos]}" type="{qn(d["ty"])}" minOccurs="{d["mn"]}" maxOccurs="{d["mx"]}"'
         if d['nil']:
             a += ' nillable="true"'
@@ -240,7 +264,7 @@ class Doc:
                 self.obj[n] = (self.root, name)
                 self.paths[n] = '@' + name
             elif s == 'kid':
-                name = KIDNAME[nd['i']]
+                name = 'm' if nd['k'] == 'em' else KIDNAME[nd['i']]
                 el = mod.SubElement(self.root, f'{{{TNS}}}{name}')
                 if nd['lx']:
                     el.text = lex(nd['lx'])
@@ -479,6 +503,8 @@ def flag_of(vec, n) -> str:
         return 'psvi-default'
     if a['nilled']:
         return 'nil'
+    if nd['k'] == 'em':
+        return 'sgmember'
     if nd['s'] == 'kid':
         if not nd['lx'] and tuple(vec['sdef']['kids'][nd['i'] - 1]) != NOLEX and a['tv'] != NOVALUE:
             return 'default'            # EffText of the spec: empty content and the declaration has a default
@@ -584,7 +610,7 @@ def check_fresh(vec, slot, S, xsd, version, lib, pv, doc: Doc, fails: list, stat
     base = dict(mode='fresh', xsd=version, lib=lib, parser=pv)
     case0 = dict(kind='fresh', xsd_text=xsd, xml=doc.xml(), version=version, lib=lib, parser=pv, f=[dict(x) for x in vec['f']])
     for n, (nd, a) in enumerate(zip(vec['f'], vec['typed']), 1):
-        if nd['k'] not in ('ea', 'eb', 'xa', 'xc'):
+        if nd['k'] not in TYPED_KINDS:
             continue
         node = nodes.get(n)
         path = doc.paths[n]
@@ -596,7 +622,7 @@ def check_fresh(vec, slot, S, xsd, version, lib, pv, doc: Doc, fails: list, stat
         if tn != a['ty']:
             fails.append((dict(base, probe='type_name', observed_type=str(tn), **node_features(vec, n)),
                           dict(case0, path=path, probe='type_name'), a['ty'], tn))
-        if nd['k'] in ('ea', 'eb') and nilled != a['nilled']:
+        if nd['k'] in ELEM_KINDS and nilled != a['nilled']:
             fails.append((dict(base, probe='nilled', **node_features(vec, n)), dict(case0, path=path, probe='nilled'),
                           a['nilled'], nilled))
         simple = a['tv'] != NOVALUE
@@ -667,7 +693,7 @@ def check_untyped(vec, lib, pv, doc: Doc, fails: list, stats: dict):
     base = dict(mode='fresh', xsd='none', lib=lib, parser=pv)
     case0 = dict(kind='untyped', xml=doc.xml(), lib=lib, parser=pv, f=[dict(x) for x in vec['f']])
     for n, (nd, a) in enumerate(zip(vec['f'], vec['untyped']), 1):
-        if nd['k'] not in ('ea', 'eb', 'xa', 'xc'):
+        if nd['k'] not in TYPED_KINDS:
             continue
         node = nodes.get(n)
         if a['ty'] == 'absent':
@@ -806,7 +832,7 @@ def replay_history(tid, trip, states, edges, init, lib, version, fails, stats):
                 want_vec = vecs[cur]['typed'] if cur else vec1['untyped']
                 nodes = find_nodes(ctx.root, doc)
                 for n, (nd, a) in enumerate(zip(vec1['f'], want_vec), 1):
-                    if nd['k'] not in ('ea', 'eb', 'xa', 'xc'):
+                    if nd['k'] not in TYPED_KINDS:
                         continue
                     node = nodes.get(n)
                     if a['ty'] == 'absent' or (cur and vecs[cur]['f'][n - 1]['dflt'] and False):
@@ -1105,14 +1131,14 @@ def run(chk: core.Check) -> None:
         wd = os.path.join(chk.scratch, 'walk-coded')
         small = dict(KidMenu={kd('int', 1, 1)}, AttrMenu=set())
         sub = mc_module('SchemaWalk', 'MC_Walk_coded', small, gen)
-        cfg = sub + tla.cfg_text(dict(MinKids=1, MaxKids=1, MaxAtts=0, LexCap=1, XsiOn=False, RetypeTo={'string'}, Guard='coded'),
+        cfg = sub + tla.cfg_text(dict(MinKids=1, MaxKids=1, MaxAtts=0, LexCap=1, XsiOn=False, VOn=False, RetypeTo={'string'}, Guard='coded'),
                                  invariants=['RefElems'])
         r = tla.run_tlc('MC_Walk_coded', cfg, wd, workers=2, extra_modules_dir=gen, timeout=300)
         chk.coverage['coded_guard_refuted_by_tlc'] = (r.violated == 'RefElems')
         # the first-particle match, as a law: TLC must refute DeclSound when two particles share a name
         small = dict(KidMenu={kd('int', 1, 1, False, True), kd('int', 0, 1)}, AttrMenu=set())
         sub = mc_module('SchemaWalk', 'MC_Walk_decl', small, gen)
-        cfg = sub + tla.cfg_text(dict(MinKids=3, MaxKids=3, MaxAtts=0, LexCap=1, XsiOn=False, RetypeTo={'string'}, Guard='typed'),
+        cfg = sub + tla.cfg_text(dict(MinKids=3, MaxKids=3, MaxAtts=0, LexCap=1, XsiOn=False, VOn=False, RetypeTo={'string'}, Guard='typed'),
                                  invariants=['DeclSound'])
         r = tla.run_tlc('MC_Walk_decl', cfg, os.path.join(chk.scratch, 'walk-decl'), workers=2, extra_modules_dir=gen, timeout=300)
         chk.coverage['first_match_declaration_refuted_by_tlc'] = (r.violated == 'DeclSound')
